@@ -34,6 +34,14 @@ def load_corpus():
         if meta.get("property") and (d.parent / "patch.diff").exists():
             out.append(dict(id="seed-" + meta["seed_id"], prop=meta["property"], patch=str(d.parent / "patch.diff"), expect="fire",
                             note="seeded: " + (meta.get("summary") or "")[:100]))
+    # behaviour-preserving refactorings written by independent sub-agents (benign/<id>/pK.diff): no check may alarm on them
+    lim = json.loads((VERIF / "benign" / "known_limitations.json").read_text()) if (VERIF / "benign" / "known_limitations.json").exists() else {}
+    allp = [f"C{i:02d}" for i in range(1, 21)]
+    for d in sorted((VERIF / "benign").glob("B*/p*.diff")):
+        key = f"{d.parent.name}/{d.name}"
+        if key in lim:
+            continue
+        out.append(dict(id=f"benign-{d.parent.name}-{d.stem}", prop=allp, patch=str(d), expect="silent", note="benign refactoring"))
     return out
 
 
@@ -116,6 +124,7 @@ def main():
     corpus = load_corpus()
     if a.prop:
         corpus = [v for v in corpus if a.prop in (v["prop"] if isinstance(v["prop"], list) else [v["prop"]])]
+        corpus = [dict(v, prop=[a.prop]) if isinstance(v["prop"], list) else v for v in corpus]
     if a.only:
         corpus = [v for v in corpus if a.only in v["id"]]
     bad = 0
